@@ -80,7 +80,7 @@ def rand_config(rnd, kind=None):
     alpha = rnd.choice(["ab", "ab", "ab", "abc", "a"])
     pats = upword.rand_patterns(rnd, alpha)
     params = [p for p in rnd.choice(upword.PARAM_SETS) if p[1] in alpha]
-    mode = rnd.choice(upword.MODES) if params else ""
+    mode = rnd.choice(upword.MODES) if params else rnd.choice(["", "", "", "", "track", "track last", "last"])
     db = rnd.choice(["RuleDB", "RuleDBForgetStrategy", "RuleDBForest", "RuleDBForest"])
     cfg = dict(
         alpha=alpha, patterns=pats, params=params, mode=mode, db=db,
